@@ -373,6 +373,6 @@ def nonempty_range_exit_edges(fc):
         if st.is_empty() or st.min() is None or st.min() <= start[1]:
             continue
         for sb, ce in fc.ces.items():
-            if ce.expr[0] == "discr" and ce.expr[1][0] == "call" and ce.expr[1][3] == bb:
+            if ce.expr[0] == "discr" and ce.expr[1][0] == "call" and ce.expr[1][3] == bb and not ce.expr[1][4]:
                 out.append((sb, ce.target_for(0)))
     return out
